@@ -138,13 +138,29 @@ def loadItems (items : List Item) : Loaded :=
       | .panic s => .panic s
   go items []
 
+/-- the results of `f` on the elements before the first one it rejects -/
+def okPrefix {α β : Type} (f : α → Option β) : List α → List β
+  | [] => []
+  | a :: tl =>
+    match f a with
+    | none => []
+    | some b => b :: okPrefix f tl
+
+/-- `ParseDirective` rejects a directive after the given ones have gone through: `model.FromStream` handles the
+directives of a file one after the other, so a panic of `transaction.Create` in an earlier directive comes first;
+otherwise the load fails with an error -/
+def loadFailed (before : List Item) : Loaded :=
+  match loadItems before with
+  | .panic site => .panic site
+  | _ => .error
+
 /-- one file: parse, convert, expand -/
 def loadText (path : String) (text : List UInt8) : Loaded :=
   match Syntax.parseText path text with
   | .error _ => .error
   | .ok f =>
     match f.directives.mapM (item text) with
-    | none => .error
+    | none => loadFailed (okPrefix (item text) f.directives)
     | some items => loadItems items
 
 end Knut.FromSyntax
